@@ -3,7 +3,7 @@
 # Uses the adversary's own scratch worktree /tmp/adv-Cxx/repo: demo on clean tree, demo with the
 # change, package tests with the change; then applies the change to /repo, runs ./check, undoes it.
 P=$1; PKG=$2; DEMO=$3; RX=$4; TESTS=$5; TAGS=$6; EXTRA=$7
-ADV=/tmp/adv-$P; R=$ADV/repo
+ADV=${ADVDIR:-/tmp/adv-$P}; R=$ADV/repo
 export GOFLAGS=-mod=mod GOPROXY=off GOSUMDB=off GOTOOLCHAIN=local
 echo "######## $P"
 cp $ADV/demo/$DEMO $R/$PKG/
